@@ -6,7 +6,7 @@
  "replace": [],
  "annotate": ["http/http.c"],
  "defines": ["VERIF_HALLOC", "HTTP_N=64", "VERIF_STRMAX=8"],
- "thorough_defines": ["HTTP_N=192"],
+ "thorough_defines": ["HTTP_N=96"],
  "models": ["models/libc_string.c", "models/http_env.c"],
  "timeout": 300,
  "assumptions": ["window object size <= HTTP_N (object-size parameter only; the scan is closed by a loop contract)",
